@@ -140,4 +140,42 @@ Proof.
     pose proof (traverse_fold_walk g (h0 :: t) (mkRT dur 0 [] []) tr g h I0 eq_refl W H) as Wf.
     rewrite X, Hrem in Wf. cbn in Wf. congruence.
 Qed.
+
+(* progress: with time available, a route whose first link has distinct ends (and which is not a closed loop) is driven at least in
+   part — the driven part is not empty *)
+Lemma traverse_step_keeps_exp (a : RT) link a' : traverse_step env (Ok a) link = Ok a' -> rt_exp a <> [] -> rt_exp a' <> [].
+Proof.
+  intros H Ne. cbn [traverse_step] in H. destruct (rt_no_time_left a).
+  - inversion H; subst. destruct (rt_add_link_not_traversed_spec a link) as (_ & B & _). rewrite B. exact Ne.
+  - destruct (e_link env (l_id link)) as [gl|]; [|discriminate].
+    destruct (traverse_up_to (e_gc env) (e_mid env) (link <| l_speed := l_speed gl |>) (rt_time a)) as [r| |]; try discriminate.
+    inversion H; subst. destruct (rt_add_traversal_spec a r) as (_ & B & _). rewrite B. intro X. apply app_eq_nil in X. destruct X. contradiction.
+Qed.
+Lemma traverse_fold_keeps_exp : forall route a a', fold_left (traverse_step env) route (Ok a) = Ok a' -> rt_exp a <> [] -> rt_exp a' <> [].
+Proof.
+  induction route as [|l route IH]; intros a a' H Ne; cbn [fold_left] in H; [inversion H; subst; exact Ne|].
+  destruct (traverse_step env (Ok a) l) as [a1| |] eqn:S.
+  - apply (IH a1 a' H). eapply traverse_step_keeps_exp; eauto.
+  - exfalso. clear -H. induction route as [|x r IHr]; cbn in H; [discriminate|auto].
+  - exfalso. clear -H. induction route as [|x r IHr]; cbn in H; [discriminate|auto].
+Qed.
+Theorem traverse_progress l route dur tr : dur <> 0 -> l_start l <> l_end l -> l_start l <> l_end (last (l :: route) l) ->
+  traverse env (l :: route) dur = Ok tr -> rt_exp tr <> [].
+Proof.
+  intros Hd Nl Nloop. unfold traverse. destruct (Pos.eqb_spec (l_start l) (l_end (last (l :: route) l))) as [E|_]; [contradiction|].
+  cbn [fold_left]. intro H.
+  destruct (traverse_step env (Ok (mkRT dur 0 [] [])) l) as [a1| |] eqn:S.
+  - apply (traverse_fold_keeps_exp route a1 tr H). cbn [traverse_step] in S.
+    assert (NT : rt_no_time_left (mkRT dur 0 [] []) = false).
+    { destruct (rt_no_time_left (mkRT dur 0 [] [])) eqn:X; [|reflexivity]. apply rt_no_time_left_spec in X. cbn in X. contradiction. }
+    rewrite NT in S. destruct (e_link env (l_id l)) as [gl|]; [|discriminate]. cbn [rt_time] in S.
+    set (l' := l <| l_speed := l_speed gl |>) in *.
+    destruct (Z.le_gt_cases (link_travel_time_seconds l') dur) as [L|L].
+    + rewrite traverse_up_to_full in S by assumption. inversion S; subst. destruct (rt_add_traversal_spec (mkRT dur 0 [] []) (mkLTR (Some l') None (dur - link_travel_time_seconds l'))) as (_ & B & _).
+      rewrite B. cbn. discriminate.
+    + rewrite traverse_up_to_partial in S by (assumption || lia). inversion S; subst.
+      match goal with |- rt_exp (rt_add_traversal _ ?r) <> [] => destruct (rt_add_traversal_spec (mkRT dur 0 [] []) r) as (_ & B & _); rewrite B end. cbn. discriminate.
+  - exfalso. clear -H. induction route as [|x r IHr]; cbn in H; [discriminate|auto].
+  - exfalso. clear -H. induction route as [|x r IHr]; cbn in H; [discriminate|auto].
+Qed.
 End W.
